@@ -124,7 +124,16 @@ def run_case(case, ctx):
     else:
         s_il, s_xl, s_n = il, xl, nI * nX
         s_z = case['t0'] + (case['dt'] / 1000.0) * np.arange(nZ)
-        conv.convert_numpy(data, out, case['rate'], (4, 4, -1), ilines=il, xlines=xl, samples=s_z)
+        # the NumPy route takes its line axes as arguments, from inline/crossline header arrays, or both
+        how = ['args', 'headers', 'both', 'il-headers-only'][int(case['id'].split(':')[1]) // 4 % 4]
+        hd = {}
+        if how != 'args' and max(abs(int(il[0])), abs(int(il[-1])), abs(int(xl[0])), abs(int(xl[-1]))) < 2 ** 31:
+            hd[189] = np.broadcast_to(il[:, None], (nI, nX)).astype(np.int64)
+            if how != 'il-headers-only':
+                hd[193] = np.broadcast_to(xl, (nI, nX)).astype(np.int64)
+        conv.convert_numpy(data, out, case['rate'], (4, 4, -1), ilines=None if how in ('headers', 'il-headers-only') and hd else il,
+                           xlines=None if how == 'headers' and hd else xl, samples=s_z, trace_headers=hd)
+        numpy_how = how if hd else 'args'
     with SgzReader(out) as r:
         compare('reader', r.ilines, r.xlines, r.zslices, r.tracecount, r.structured, s_il, s_xl, s_z, s_n, bad)
     with seismic_zfp.open(out) as f:
@@ -171,7 +180,11 @@ def run_case(case, ctx):
     if case['route'] == 'zgy':
         return {'violations': bad, 'counters': {'sources': 1}, 'strata': ['route:zgy', 'zgy-dz:%s' % case['dz'], 'zgy-z0:%s' % case['z0'], 'zgy-follow:%s' % fol],
                 'key': 'zgy|%s|%s|%s|%s|%s|%s' % (case['ilk'], case['il'][1], case['xlk'], case['xl'][1], case['dz'], case['z0'])}
-    strata = ['route:' + case['route'], 'dt:%d' % case['dt'], 't0:%d' % case['t0'], 'ilstart:' + case['ilk'], 'xlstart:' + case['xlk'],
+    if case['route'] == 'numpy':
+        extra_strata = ['numpy-axes:' + numpy_how]
+    else:
+        extra_strata = []
+    strata = extra_strata + ['route:' + case['route'], 'dt:%d' % case['dt'], 't0:%d' % case['t0'], 'ilstart:' + case['ilk'], 'xlstart:' + case['xlk'],
               'ilstep:%s' % (case['il'][1] if abs(case['il'][1]) <= 1000 else 'huge'), 'xlstep:%s' % (case['xl'][1] if abs(case['xl'][1]) <= 1000 else 'huge'), 'follow:%s' % fol]
     return {'violations': bad, 'counters': {'sources': 1}, 'strata': strata,
             'key': '%s|%s|%s|%s|%s|%s|%s' % (case['ilk'], case['il'][1], case['xlk'], case['xl'][1], case['dt'], case['t0'], case['route'])}
@@ -180,7 +193,7 @@ def run_case(case, ctx):
 def finalize(tier, cases, results, counters, strata):
     reasons = []
     need = ['dt:%d' % d for d in INTERVALS] + ['t0:%d' % t for t in T0S] + ['ilstep:%d' % s for s in STEPS] + \
-           ['ilstart:max', 'ilstart:min', 'xlstart:max', 'xlstart:min', 'ilstart:span', 'xlstart:span', 'route:segy', 'route:numpy', 'route:zgy', 'follow:crop', 'follow:reblock', 'follow:export', 'follow:window']
+           ['ilstart:max', 'ilstart:min', 'xlstart:max', 'xlstart:min', 'ilstart:span', 'xlstart:span', 'route:segy', 'route:numpy', 'route:zgy', 'follow:crop', 'follow:reblock', 'follow:export', 'follow:window', 'numpy-axes:args', 'numpy-axes:headers', 'numpy-axes:both', 'numpy-axes:il-headers-only']
     need += ['zgy-dz:%s' % d for d in ZGY_DZ] + ['zgy-z0:%s' % z for z in ZGY_Z0[:3]]
     for s in need:
         if s not in strata:
